@@ -122,11 +122,14 @@ struct Run {
     symlink: bool,
     /// the output tree already holds a (longer) file at the normalised path of every benign member
     prefill: bool,
+    /// the output tree already holds, at the normalised path of the first benign member, a symbolic link to a file
+    /// outside of it
+    filelink: bool,
 }
 
 impl Run {
     fn json(&self) -> Value {
-        json!({"names": self.names, "compress": self.compress, "form": self.form, "outdir_form": self.outdir_form, "preexisting_symlink": self.symlink, "preexisting_files": self.prefill})
+        json!({"names": self.names, "compress": self.compress, "form": self.form, "outdir_form": self.outdir_form, "preexisting_symlink": self.symlink, "preexisting_files": self.prefill, "preexisting_file_symlink": self.filelink})
     }
     fn from_json(v: &Value) -> Run {
         Run {
@@ -136,6 +139,7 @@ impl Run {
             outdir_form: v["outdir_form"].as_u64().unwrap_or(0) as u8,
             symlink: v["preexisting_symlink"].as_bool().unwrap_or(false),
             prefill: v["preexisting_files"].as_bool().unwrap_or(false),
+            filelink: v["preexisting_file_symlink"].as_bool().unwrap_or(false),
         }
     }
 }
@@ -186,6 +190,21 @@ fn exec(r: &Run, rep: &mut Report) -> Option<(Value, String)> {
             let mut old = content_of(n);
             old.extend_from_slice(&b"OLD-CONTENT-".repeat(40));
             let _ = std::fs::write(&p, &old);
+        }
+    }
+    let mut linked: Option<String> = None;
+    if r.filelink {
+        if let Some(n) = r.names.iter().find(|n| classify(n) == Class::Benign) {
+            let mut p = out.clone();
+            for c in normalise(n) {
+                p.push(c);
+            }
+            if let Some(d) = p.parent() {
+                let _ = std::fs::create_dir_all(d);
+            }
+            if std::os::unix::fs::symlink(sb.join("outside_dir").join("victim.txt"), &p).is_ok() {
+                linked = Some(n.clone());
+            }
         }
     }
     let outarg: String = match r.outdir_form {
@@ -272,6 +291,9 @@ fn exec(r: &Run, rep: &mut Report) -> Option<(Value, String)> {
             if r.symlink && norm.first().map(|c| c == "zq_a").unwrap_or(false) {
                 continue; // goes through the pre-existing symlink: refused by design
             }
+            if linked.as_deref() == Some(n.as_str()) {
+                continue; // its destination is a link leaving the output directory: whatever mlar does with it, nothing outside may change
+            }
             // another selected member may legitimately overwrite/collide: groups are collision free
             let mut p = out.clone();
             for c in &norm {
@@ -352,25 +374,28 @@ fn runs(thorough: bool) -> (Vec<Run>, Value) {
                 if !thorough && (of as usize + gi) % 2 == 1 && sym {
                     continue;
                 }
-                out.push(Run { names: g.clone(), compress, form: "whole".into(), outdir_form: of, symlink: sym, prefill: false });
+                out.push(Run { names: g.clone(), compress, form: "whole".into(), outdir_form: of, symlink: sym, prefill: false, filelink: false });
             }
         }
         for sym in [false, true] {
-            out.push(Run { names: g.clone(), compress, form: "glob-star".into(), outdir_form: (gi % 4) as u8, symlink: sym, prefill: false });
+            out.push(Run { names: g.clone(), compress, form: "glob-star".into(), outdir_form: (gi % 4) as u8, symlink: sym, prefill: false, filelink: false });
         }
+        // a symbolic link to a file outside, at the destination of a benign member
+        out.push(Run { names: g.clone(), compress, form: "whole".into(), outdir_form: (gi % 4) as u8, symlink: false, prefill: false, filelink: true });
+        out.push(Run { names: g.clone(), compress, form: "glob-star".into(), outdir_form: ((gi + 2) % 4) as u8, symlink: false, prefill: false, filelink: true });
         // destinations already present (left by an earlier extraction) and longer than the members
-        out.push(Run { names: g.clone(), compress, form: "whole".into(), outdir_form: (gi % 4) as u8, symlink: false, prefill: true });
-        out.push(Run { names: g.clone(), compress, form: "glob-star".into(), outdir_form: ((gi + 1) % 4) as u8, symlink: false, prefill: true });
+        out.push(Run { names: g.clone(), compress, form: "whole".into(), outdir_form: (gi % 4) as u8, symlink: false, prefill: true, filelink: false });
+        out.push(Run { names: g.clone(), compress, form: "glob-star".into(), outdir_form: ((gi + 1) % 4) as u8, symlink: false, prefill: true, filelink: false });
         // selected-files forms: one invocation per member (quick: the first 3 members of each group)
         for (k, n) in g.iter().enumerate() {
             if !thorough && k >= 3 {
                 break;
             }
-            out.push(Run { names: g.clone(), compress, form: format!("listed:{n}"), outdir_form: ((gi + k) % 4) as u8, symlink: k % 2 == 1, prefill: false });
-            out.push(Run { names: g.clone(), compress, form: format!("glob:{n}"), outdir_form: ((gi + k + 1) % 4) as u8, symlink: k % 2 == 0, prefill: false });
+            out.push(Run { names: g.clone(), compress, form: format!("listed:{n}"), outdir_form: ((gi + k) % 4) as u8, symlink: k % 2 == 1, prefill: false, filelink: false });
+            out.push(Run { names: g.clone(), compress, form: format!("glob:{n}"), outdir_form: ((gi + k + 1) % 4) as u8, symlink: k % 2 == 0, prefill: false, filelink: false });
             if k == 0 {
-                out.push(Run { names: g.clone(), compress, form: format!("listed:{n}"), outdir_form: (gi % 4) as u8, symlink: false, prefill: true });
-                out.push(Run { names: g.clone(), compress, form: format!("glob:{n}"), outdir_form: (gi % 4) as u8, symlink: false, prefill: true });
+                out.push(Run { names: g.clone(), compress, form: format!("listed:{n}"), outdir_form: (gi % 4) as u8, symlink: false, prefill: true, filelink: false });
+                out.push(Run { names: g.clone(), compress, form: format!("glob:{n}"), outdir_form: (gi % 4) as u8, symlink: false, prefill: true, filelink: false });
             }
         }
     }
@@ -379,7 +404,7 @@ fn runs(thorough: bool) -> (Vec<Run>, Value) {
         "grammar": "c1/.../ck, k <= 3 (thorough 4), components {.., ., empty, zq_a, zq_b, unicode, '..zq', '...', 'zq_a\\..\\zq_b' and '..\\zq_c' (ordinary single components on this platform: dots or backslashes inside a name are not path syntax), 255 x n, 300 x n}, with/without leading and trailing '/'",
         "classes": by.iter().map(|(k, v)| (format!("{k:?}"), v.len())).collect::<BTreeMap<_, _>>(),
         "archives": groups.len(),
-        "forms": "whole archive (linear), --glob '*', a listed name, --glob with the exact name; output dir argument relative / absolute / trailing slash / ./relative; output tree absent, pre-existing with a directory symlink leaving the output directory, or pre-existing with longer files at every benign destination (each form)",
+        "forms": "whole archive (linear), --glob '*', a listed name, --glob with the exact name; output dir argument relative / absolute / trailing slash / ./relative; output tree absent, pre-existing with a directory symlink leaving the output directory, pre-existing with longer files at every benign destination (each form), or pre-existing with a symbolic link to a file outside at the destination of a benign member",
     });
     (out, bounds)
 }
